@@ -4,7 +4,8 @@
 (* An abstract program is a sequence of chain calls (parts), each a        *)
 (* template of tagged holes  "<tag> <op> ?"  with one argument per hole,   *)
 (* plus a finisher with its write payload.  Values are opaque ids.         *)
-(*   arg.k : scalar ptr valuer bytes   one value   -> one bound parameter  *)
+(*   arg.k : scalar ptr valuer bytes nbytes (a named byte-slice type)      *)
+(*                                     one value   -> one bound parameter  *)
 (*           nil nilvaluer             SQL NULL    -> one bound NULL       *)
 (*           slice (vs)                n values    -> n parameters;        *)
 (*                 empty: "IN ?" -> the text (NULL), no parameter          *)
@@ -24,7 +25,7 @@ RECURSIVE HolePairs(_, _), HolesPairs(_, _), PartsPairs(_)
 \* slice becomes the text (NULL) also inside "IN (@name)"
 HolePairs(h, named) ==
   LET a == h.arg IN
-  CASE a.k \in {"scalar", "ptr", "valuer", "bytes"} -> <<P(h.tag, a.v)>>
+  CASE a.k \in {"scalar", "ptr", "valuer", "bytes", "nbytes"} -> <<P(h.tag, a.v)>>
     [] a.k \in {"nil", "nilvaluer"} -> <<P(h.tag, NullTok)>>
     [] a.k = "slice" -> IF Len(a.vs) = 0 THEN (IF h.op = "INP" /\ ~named THEN <<P(h.tag, NullTok)>> ELSE <<>>)
                         ELSE [i \in DOMAIN a.vs |-> P(h.tag, a.vs[i])]
@@ -71,11 +72,11 @@ NoValueInText(e) == e.markers = <<>>
 (* a placeholder count, explored over a bounded space of flat holes.       *)
 (***************************************************************************)
 CONSTANTS MaxParts
-Kinds == {"scalar", "ptr", "valuer", "bytes", "nil", "nilvaluer", "slice", "nested"}
+Kinds == {"scalar", "ptr", "valuer", "bytes", "nbytes", "nil", "nilvaluer", "slice", "nested"}
 FlatHoles == [k : Kinds, n : 0..2, op : {"=", "IN", "INP"}]
 \* placeholders gorm writes for one flat hole
 RenderCount(f) ==
-  CASE f.k \in {"scalar", "ptr", "valuer", "bytes", "nil", "nilvaluer"} -> 1
+  CASE f.k \in {"scalar", "ptr", "valuer", "bytes", "nbytes", "nil", "nilvaluer"} -> 1
     [] f.k = "slice" -> IF f.n = 0 THEN (IF f.op = "INP" THEN 1 ELSE 0) ELSE f.n   \* after "(": elements; empty -> AddVar(nil)
     [] f.k = "nested" -> 2 * f.n
 \* the same hole as an abstract hole with fresh value ids
